@@ -495,3 +495,73 @@ Proof.
   - intros tf tree _; eexists; split; [reflexivity | exact I].
   - intros tf p _; eexists; reflexivity.
 Qed.
+
+(** * 5. Assembly: from the stage invariants of the fixes to a loop that returns *)
+Section AssemblyProofs.
+  Variable Fix Tree : Type.
+  Variable shape_of : Fix -> lintfix.
+  Variable batch_of : Fix -> bfix.
+  Variable wrapping : bool.
+  Variable tsts : tsts_t.
+  Variable raw : list raw_slice.
+  Variable eval_results : phase -> N -> rule -> Tree -> list (list Fix).
+  Variable apply_fixes : Tree -> list Fix -> outcome Tree.
+  Variable version : Tree -> N.
+
+  (** every fix any rule returns is anchored on a positioned segment and is not a "just source
+      edit" (both monitored on every real batch), the file has raw slices,
+      [templated_slice_to_source_slice] and [apply_fixes] do not panic *)
+  Hypothesis H_tsts : tsts_ok tsts.
+  Hypothesis H_fix : forall ph pass r t res fx,
+    In res (eval_results ph pass r t) -> In fx res -> fix_inv raw (shape_of fx) /\ is_jse (batch_of fx) = false.
+  Hypothesis H_apply : forall t fs, ok (apply_fixes t fs).
+
+  Lemma keep_results_spec rs :
+    (forall res fx, In res rs -> In fx res -> fix_inv raw (shape_of fx)) ->
+    exists k, keep_results Fix shape_of false wrapping tsts raw rs = Val k /\ incl k rs.
+  Proof.
+    induction rs as [|r rs IH]; intros H; cbn [keep_results]; [exists []; split; [reflexivity | apply incl_refl]|].
+    assert (Hr : Forall (fix_inv raw) (map shape_of r)).
+    { apply Forall_forall. intros x Hx. apply in_map_iff in Hx. destruct Hx as [fx [<- Hfx]].
+      apply (H r fx); [left; reflexivity | exact Hfx]. }
+    destruct (any_conflict_total wrapping tsts raw _ H_tsts Hr) as [c ->]; cbn [bind].
+    destruct IH as [k [-> Hk]]; [intros res fx Hres; apply H; right; exact Hres|]. cbn [bind].
+    destruct c; eexists; split; try reflexivity.
+    - apply incl_tl; exact Hk.
+    - apply incl_cons; [left; reflexivity | apply incl_tl; exact Hk].
+  Qed.
+
+  Lemma crawl_fixes_spec ph pass r t :
+    exists fs, crawl_fixes Fix Tree shape_of false wrapping tsts raw eval_results ph pass r t = Val fs /\
+               Forall (fun fx => is_jse (batch_of fx) = false) fs.
+  Proof.
+    unfold crawl_fixes.
+    destruct (keep_results_spec (eval_results ph pass r t)) as [k [-> Hk]].
+    { intros res fx Hres Hfx. apply (H_fix ph pass r t res fx Hres Hfx). }
+    cbn [bind]. eexists; split; [reflexivity|].
+    apply Forall_forall. intros fx Hfx. apply in_concat in Hfx. destruct Hfx as [res [Hres Hin]].
+    apply (H_fix ph pass r t res fx); [apply Hk; exact Hres | exact Hin].
+  Qed.
+
+  Theorem crawl_c_ok : crawl_ok Tree (crawl_c Fix Tree shape_of false wrapping tsts raw eval_results).
+  Proof.
+    intros ph pass r t. unfold crawl_c. destruct (crawl_fixes_spec ph pass r t) as [fs [-> _]].
+    eexists; reflexivity.
+  Qed.
+
+  Theorem apply_c_ok : apply_ok Tree (apply_c Fix Tree shape_of batch_of false wrapping tsts raw eval_results apply_fixes).
+  Proof.
+    intros ph pass r t. unfold apply_c. destruct (crawl_fixes_spec ph pass r t) as [fs [-> Hj]]. cbn [bind].
+    apply bind_ok; [|intros; apply H_apply].
+    apply compute_aei_total. apply Forall_forall. intros b Hb. apply in_map_iff in Hb.
+    destruct Hb as [fx [<- Hfx]]. rewrite Forall_forall in Hj. apply Hj; exact Hfx.
+  Qed.
+
+  (** rule results with positioned anchors and no just-source-edit ⇒ lint and fix return *)
+  Theorem lint_fix_total_from_invariants fixmode all t :
+    ok (lint_fix Tree version
+          (crawl_c Fix Tree shape_of false wrapping tsts raw eval_results)
+          (apply_c Fix Tree shape_of batch_of false wrapping tsts raw eval_results apply_fixes)
+          fixmode all t).
+  Proof. apply lint_fix_total; [apply crawl_c_ok | apply apply_c_ok]. Qed.
+End AssemblyProofs.
